@@ -339,6 +339,60 @@ GenFuncs == \E p \in 1..Len(Params), b \in 1..Len(Bodies), f \in 1..3 :
   \/ Emit("func", <<"stmt", p, b, f>>, <<FuncForms(Params[p], Bodies[b])[f]>>)
   \/ Emit("func", <<"asg", p, b, f>>, <<Asg(FALSE, Id("f"), FuncForms(Params[p], Bodies[b])[f])>>)
 
+\* ---- function VALUES (the second printer: object.Function.Inspect / SetCacheKey / SaveGlobals).
+\* A one-statement body is written without braces when that can be read back, which depends on the LEFTMOST
+\* leaf of the statement (`{` would open a block, a lambda head would chain) and on its binding strength.
+\* Every leaf shape, under every chain of operators that keeps it (or does not keep it) leftmost, at chain
+\* depth 0..2, as the body of every function form.
+FvLeaves == << MapL(<< <<StrB(<<97>>), Id("x")>>, <<StrB(<<98>>), Two>> >>), MapL(<<>>),
+               Lam(<<"y">>, <<Id("y")>>), Lam(<<"y", "z">>, <<Id("y")>>), Lam(<<>>, <<One>>), Fn("", <<"y">>, FALSE, FALSE, <<Id("y")>>),
+               Arr(<<Id("x"), Two>>), Arr(<<>>), Inf("||", Id("x"), B), Inf("+", Id("x"), One), Inf(":", Id("x"), Two), Asg(FALSE, Id("y"), Id("x")),
+               Id("x"), One, Raw(".5"), StrB(<<115>>), BoolL(TRUE), IfElse(Id("x"), <<One>>, <<Two>>), For(Id("x"), <<One>>),
+               Call(Id("x"), <<One>>), Bi("len", <<Id("x")>>), Pre("-", Id("x")), Pre("!", Id("x")), Post("++", "i"), Idx(Id("x"), One), Dot(Id("x"), "a") >>
+FvLeft  == <<"idx", "idxs", "dot", "call", "call0", "slice", "open", "inf+", "inf*", "inf==", "inf&&", "inf||", "inf:", "asg", "def">>  \* hole on the left
+FvOther == <<"none", "idxI", "callA", "infR+", "infR&&", "pre-", "pre!">>
+FvChains == FvLeft \o FvOther
+FvApply(c, t) ==
+  CASE c = "none"   -> t
+    [] c = "idx"    -> Idx(t, One)
+    [] c = "idxs"   -> Idx(t, StrB(<<97>>))
+    [] c = "dot"    -> Dot(t, "a")
+    [] c = "call"   -> Call(t, <<One>>)
+    [] c = "call0"  -> Call(t, <<>>)
+    [] c = "slice"  -> Idx(t, Inf(":", One, Two))
+    [] c = "open"   -> Idx(t, Inf(":", One, None))
+    [] c = "inf+"   -> Inf("+", t, Z)
+    [] c = "inf*"   -> Inf("*", t, Z)
+    [] c = "inf=="  -> Inf("==", t, Z)
+    [] c = "inf&&"  -> Inf("&&", t, Z)
+    [] c = "inf||"  -> Inf("||", t, Z)
+    [] c = "inf:"   -> Inf(":", t, Z)
+    [] c = "asg"    -> Asg(FALSE, t, Z)
+    [] c = "def"    -> Asg(TRUE, t, Z)
+    [] c = "idxI"   -> Idx(Z, t)
+    [] c = "callA"  -> Call(Z, <<t>>)
+    [] c = "infR+"  -> Inf("+", Z, t)
+    [] c = "infR&&" -> Inf("&&", Z, t)
+    [] c = "pre-"   -> Pre("-", t)
+    [] c = "pre!"   -> Pre("!", t)
+FvFormNames == <<"lambda1", "anon", "lambda0", "named", "lambda2", "variadic", "nested">>
+FvForm(f, body) ==
+  CASE f = "lambda1"  -> Asg(FALSE, Id("f"), Lam(<<"x">>, <<body>>))
+    [] f = "lambda2"  -> Asg(FALSE, Id("f"), Lam(<<"x", "y">>, <<body>>))
+    [] f = "lambda0"  -> Asg(FALSE, Id("f"), Lam(<<>>, <<body>>))
+    [] f = "variadic" -> Asg(FALSE, Id("f"), Fn("", <<"x", "..">>, TRUE, TRUE, <<body>>))
+    [] f = "anon"     -> Asg(FALSE, Id("f"), Fn("", <<"x">>, FALSE, FALSE, <<body>>))
+    [] f = "named"    -> Fn("g", <<"x">>, FALSE, FALSE, <<body>>)
+    [] f = "nested"   -> Asg(FALSE, Id("f"), Lam(<<"x">>, <<Lam(<<"y">>, <<body>>)>>))
+
+GenFnBodies ==
+  \/ \E l \in 1..Len(FvLeaves), c \in 1..Len(FvChains), f \in 1..(IF Thorough THEN Len(FvFormNames) ELSE 3) :
+       Emit("fnbody", <<1, l, FvChains[c], FvFormNames[f]>>, <<FvForm(FvFormNames[f], FvApply(FvChains[c], FvLeaves[l]))>>)
+  \/ \E l \in 1..Len(FvLeaves), c \in 1..Len(FvLeft), d \in 1..(IF Thorough THEN Len(FvChains) ELSE Len(FvLeft)), f \in 1..(IF Thorough THEN 2 ELSE 1) :
+       (IF Thorough \/ (l + c + d) % 4 = 0 THEN TRUE ELSE FALSE) /\
+       Emit("fnbody", <<2, l, FvLeft[c], FvChains[d], FvFormNames[f]>>,
+            <<FvForm(FvFormNames[f], FvApply(FvChains[d], FvApply(FvLeft[c], FvLeaves[l])))>>)
+
 Init == phase = 0 /\ cur = <<>>
 Next == /\ phase = 0
         /\ phase' = 1
@@ -352,4 +406,5 @@ Next == /\ phase = 0
            \/ "string" \in Families /\ GenStrings
            \/ "literal" \in Families /\ GenLiterals
            \/ "func" \in Families /\ GenFuncs
+           \/ "fnbody" \in Families /\ GenFnBodies
 =============================================================================
